@@ -212,7 +212,7 @@ def run_run(case):
     res.key = case_key(case)
     dev = _device(case["dev"])
     alpha, beta = AB[case["ab"]]
-    dt = 2.0**-5
+    dt = 2.0**-10 if case["ab"] in DIVERGENT else 2.0**-5  # (small steps: the psi update itself is not refused while the iterates grow)
     nsteps = 5
     fu = {"G5nm": "uT", "G5mm": "T"}.get(case["dev"], "mT")
     kw = dict(applied_vector_potential=case["B"] * {"uT": 1e3, "T": 1e-3, "mT": 1.0}[fu])
